@@ -1260,7 +1260,7 @@ try:                                   # the directive translator (argument proc
     from .translate_args import TRANSLATED as _ARGS_TRANSLATED
 except ImportError:                    # run as a script
     from translate_args import TRANSLATED as _ARGS_TRANSLATED
-TRANSLATED = TRANSLATED + list(_ARGS_TRANSLATED)
+TRANSLATED = TRANSLATED + list(_ARGS_TRANSLATED) + ['pyramid/config/predicates.py:PredicateList.make']
 GEN_NAMES = ['gen_remove', 'gen_add', 'gen_sorted', 'gen_tw_add_explicit', 'gen_tw_add_implicit', 'gen_tw_implicit',
              'gen_tw_call', 'gen_apply_view_derivers']
 
